@@ -48,7 +48,7 @@ Lemma st_sched_reach : reach repaired P1 st_sched.
 Proof.
   apply wrun_reach.
   - constructor. vm_compute. discriminate.
-  - cbn [hist_ok]. repeat split; vm_compute; intros; discriminate.
+  - apply hist_okb_ok. vm_compute. reflexivity.
 Qed.
 
 (* the wallet says: mature from height 2 on (1 + lock(1) = 2); consensus at height 3: 1 + lock(3) = 6 > 3 *)
@@ -86,8 +86,7 @@ Lemma st_pin_reach I : reach I P0 (st_pin I).
 Proof.
   apply wrun_reach.
   - constructor. vm_compute. discriminate.
-  - destruct I as [a b]; destruct a, b; cbn [hist_ok ops_pin map app trunkB];
-      repeat split; vm_compute; intros; discriminate.
+  - apply hist_okb_ok. destruct I as [a b]; destruct a, b; vm_compute; reflexivity.
 Qed.
 
 (* the restored coinbase output has ValidHeight 0: usable at the wallet's own height 8,
@@ -123,8 +122,7 @@ Definition s_pin (I : impl) : sys := sys_run I P0 (mkSys [gB] (winit P0 gB)) ds_
 Lemma s_pin_ok I : cscan P0 [gB] <> None /\ sys_ok I P0 (mkSys [gB] (winit P0 gB)) ds_pin.
 Proof.
   split; [vm_compute; discriminate|].
-  destruct I as [a b]; destruct a, b; cbn [sys_ok ds_pin map app trunkB];
-    repeat split; vm_compute; intros; try discriminate; auto.
+  apply sys_okb_ok. destruct I as [a b]; destruct a, b; vm_compute; reflexivity.
 Qed.
 
 Lemma s_pin_witness :
@@ -138,13 +136,22 @@ Proof.
   eexists. repeat split. eexists. eexists. repeat split. eexists. repeat split.
 Qed.
 
+Lemma s_pin_witness2 :
+  let s := sys_run pinned P0 (mkSys [gB] (winit P0 gB)) ds_pin in
+  exists k u e m, dget (wdb (s_w s)) k = Some u /\ usable u (tip_height (s_main s)) = true /\
+    cscan P0 (wchain (s_w s)) = Some m /\ cget m (snd k) = Some e /\
+    unlocked P0 e (tip_height (s_main s) + 1) = false.
+Proof.
+  cbv zeta. exists (true, 1). vm_compute. eexists. eexists. eexists. repeat split.
+Qed.
+
 Theorem pinned_refuted_system : ~ c25_system_statement pinned sched_good.
 Proof.
   intros H. destruct (s_pin_ok pinned) as [Hg Hs].
-  specialize (H P0 gB ds_pin P0_good Hg Hs). cbv zeta in H. fold (s_pin pinned) in H.
-  destruct s_pin_witness as [Hh [_ [u [G [U [m [e [C [E [L _]]]]]]]]]].
-  rewrite Hh in H. specialize (H (true, 1) u e m G U C E).
-  change (6 + 1) with 7 in H. rewrite L in H. discriminate.
+  specialize (H P0 gB ds_pin P0_good Hg Hs). cbv zeta in H.
+  pose proof s_pin_witness2 as W. cbv zeta in W.
+  destruct W as [k [u [e [m [G [U [C [E L]]]]]]]].
+  exact (eq_true_false_abs _ (H k u e m G U C E) L).
 Qed.
 
 Theorem repaired_system : c25_system_statement repaired sched_good.
